@@ -28,7 +28,7 @@ def gen(rng, tier):
                     idx = list(range(0, n + 3)) + [USIZE_MAX // size - 1, USIZE_MAX // size, USIZE_MAX // size + 1, USIZE_MAX, 2**63, 2**32]
                     rng.shuffle(idx)
                     idx = idx[:8] + [rng.randrange(0, n + 1), rng.randrange(0, n + 1)]   # repeated / re-ordered
-                    qs = ["len", "empty", "iter", "nexts %d" % (n + 3)] + ["get %d" % i for i in idx]
+                    qs = ["len", "empty", "iter", "intoiter", "nexts %d" % (n + 3)] + ["get %d" % i for i in idx]
                     for _w in range(2):
                         qs.append(walk_script(rng, n))
                     cases.append("table %s %s %d %s | %s" % (ty, spec, cl, hx(data), " | ".join(qs)))
@@ -114,6 +114,8 @@ def oracle(case, impl, model):
             items = r
             if len(r) != n:
                 return "iteration yields %d items, len is %d" % (len(r), n)
+        if t[0] == "intoiter" and items is not None and r != items:
+            return "IntoIterator::into_iter yields %s, iter() yields %s" % (str(r)[:150], str(items)[:150])
         if t[0] == "nexts":
             if len([x for x in r if x != "none"]) != n or any(x == "none" for x in r[:n]) or any(x != "none" for x in r[n:]):
                 return "next() sequence is not n items followed by None forever: %s" % (r,)
